@@ -3,6 +3,8 @@
 # with the patch applied; print which properties report a new violation. Output: /verif/seeded/MATRIX.txt
 set -u
 cd /verif
+./check.sh C03 quick >/dev/null 2>&1  # make sure the analyser is built
+export VERIF_BIN=$(mktemp /tmp/gosqlx-sa.XXXXXX); cp bin/gosqlx-sa $VERIF_BIN; chmod +x $VERIF_BIN
 props=$(python3 -c "import json;print(' '.join(c['property_id'] for c in json.load(open('MANIFEST.json'))['checks']))")
 seeds="$@"; [ -z "$seeds" ] && seeds=$(ls -d seeded/*/ | xargs -n1 basename)
 for s in $seeds; do
@@ -20,3 +22,4 @@ for s in $seeds; do
   echo "$s:$hits"
   rm -rf "$scratch"
 done
+rm -f $VERIF_BIN
